@@ -258,6 +258,8 @@ type firstAnswerHost struct {
 	answer   func() proto4.Object
 	second   proto4.Object
 	accepted chan bool
+	// final, if set, is sent after the renter's second message has been read (a host that completes the exchange)
+	final func() proto4.Object
 }
 
 func (h *firstAnswerHost) DialStream(ctx context.Context) (net.Conn, error) {
@@ -277,7 +279,11 @@ func (h *firstAnswerHost) DialStream(ctx context.Context) (net.Conn, error) {
 			h.accepted <- false
 			return
 		}
-		h.accepted <- proto4.ReadResponse(s, h.second) == nil
+		ok := proto4.ReadResponse(s, h.second) == nil
+		if ok && h.final != nil {
+			proto4.WriteResponse(s, h.final())
+		}
+		h.accepted <- ok
 	}()
 	return c, nil
 }
@@ -391,6 +397,39 @@ func c10ScriptedProofs() {
 						}
 					}
 				}
+			}
+		}
+		// free with an index beyond the contract (a caller mistake) against a host that, instead of refusing,
+		// answers with a well-formed proof for the in-range part: the client must return an error
+		for _, indices := range [][]uint64{{uint64(sectors) + 2}, {0, uint64(sectors)}, {uint64(sectors - 1), uint64(sectors) + 5}} {
+			var inRange []uint64
+			for _, ix := range indices {
+				if ix < uint64(sectors) {
+					inRange = append(inRange, ix)
+				}
+			}
+			if len(inRange) == 0 {
+				inRange = []uint64{uint64(sectors - 1)}
+			}
+			tree, leaves := proto4.BuildFreeSectorsProof(all, inRange)
+			newRoot := proto4.MetaRoot(modelFree(all, inRange))
+			h := &firstAnswerHost{hostKey: w.HostKey, request: &proto4.RPCFreeSectorsRequest{}, second: &proto4.RPCFreeSectorsSecondResponse{}, accepted: make(chan bool, 1),
+				answer: func() proto4.Object {
+					return &proto4.RPCFreeSectorsResponse{OldSubtreeHashes: tree, OldLeafHashes: leaves, NewMerkleRoot: newRoot}
+				}}
+			var err error
+			var pan any
+			func() {
+				defer func() { pan = recover() }()
+				_, err = rhp.RPCFreeSectors(cctx(), h, w.RenterKey, w.CS, w.Prices, w.Contract, indices)
+			}()
+			acc := false
+			if pan == nil {
+				acc = <-h.accepted
+			}
+			report("free", fmt.Sprintf("RPCFreeSectors(%v) on %d sectors (index out of range), host answers with a proof for %v", indices, sectors, inRange), false, pan, err, acc)
+			if pan == nil && acc {
+				run.Violate("c10:success-not-bound:free:out-of-range-index-accepted", fmt.Sprintf("RPCFreeSectors(%v) on %d sectors: the renter signed a revision for freeing %v although it asked for an index the contract does not have", indices, sectors, inRange), nil)
 			}
 		}
 		// append
